@@ -312,6 +312,8 @@ def main(argv):
             print("replay run_dyadic:", dyadic_impl(spec))
         else:
             print("replay: nothing executable stored (theorem / correspondence record):", json.dumps(doc)[:600])
+        import shutil
+        shutil.rmtree(ck.scratch, ignore_errors=True)
         return 0
 
     bad = ck.hygiene()
